@@ -135,6 +135,7 @@ type checkOpts struct {
 	verif    string
 	keep     bool
 	verbose  bool
+	evidenceDir string
 	only     string
 	timeout  int
 }
@@ -146,6 +147,7 @@ func cmdCheck(args []string) int {
 	fs.StringVar(&o.tier, "tier", "", "quick|thorough")
 	fs.StringVar(&o.repo, "repo", "/repo", "repository root")
 	fs.StringVar(&o.verif, "verif", "/verif", "verif root")
+	fs.StringVar(&o.evidenceDir, "evidence-dir", "", "where to write evidence (default <verif>/evidence)")
 	fs.BoolVar(&o.keep, "keep", false, "keep SMT files")
 	fs.BoolVar(&o.verbose, "v", false, "verbose")
 	fs.StringVar(&o.only, "only", "", "only functions containing this substring")
@@ -187,7 +189,10 @@ func runCheck(o *checkOpts) int {
 		return 2
 	}
 	plan.ID = o.property
-	evPath := filepath.Join(o.verif, "evidence", o.property+".json")
+	if o.evidenceDir == "" {
+		o.evidenceDir = filepath.Join(o.verif, "evidence")
+	}
+	evPath := filepath.Join(o.evidenceDir, o.property+".json")
 	os.MkdirAll(filepath.Dir(evPath), 0o755)
 	os.Remove(evPath)
 	toolErr := func(format string, a ...any) int {
@@ -373,7 +378,7 @@ func runCheck(o *checkOpts) int {
 			}
 		}
 	}
-	replayDir := filepath.Join(o.verif, "evidence", "replay")
+	replayDir := filepath.Join(o.evidenceDir, "replay")
 	for _, ob := range failing {
 		exit = 1
 		os.MkdirAll(replayDir, 0o755)
